@@ -19,8 +19,8 @@ UnitsOps  == << <<33>>, <<61>>, <<46>>, <<38>>, <<124>>, <<63>>, <<60>>, <<62>>,
 \*              !      =      .      &      |       ?      <      >      a      1   space  LF  NBSP  @  NEL(U+0085)  (
 UnitsNum  == << <<48>>, <<49>>, <<57>>, <<46>>, <<101>>, <<69>>, <<43>>, <<45>>, <<95>>, <<97>>, <<120>> >>
 \*              0      1      9      .      e       E      +      -      _      a      x
-UnitsWord == << <<116>>, <<114>>, <<117>>, <<101>>, <<32>>, <<46>>, <<36>>, <<49>>, <<40>>, <<41>> >>
-\*              t       r       u       e      space   .      $      1      (      )
+UnitsWord == << <<116>>, <<114>>, <<117>>, <<101>>, <<32>>, <<46>>, <<36>>, <<49>>, <<40>>, <<41>>, <<116,114,117,101>>, <<195,169>>, <<204,129>> >>
+\*              t       r       u       e      space   .      $      1      (      )      true      e-acute      U+0301 (identifier part only)
 \* long literals: ten-digit blocks, so that <= 5 units reach 50 significant digits
 UnitsLong == << <<49,50,51,52,53,54,55,56,57,48>>, <<48,48,48,48,48,48,48,48,48,48>>, <<57,57,57,57,57,57,57,57,57,53>>,
                 <<46>>, <<49>>, <<101,45,51>>, <<95>> >>
